@@ -115,11 +115,12 @@ impl SequenceMatcher {
              a_indices@ == rows(*group, event_type_a@), b_indices@ == rows(*group, event_type_b@), a_indices@.len() + b_indices@.len() < usize::MAX,
              zones_of(*zones_by_event_type, event_type_a@) == Some(zones_a@), zones_of(*zones_by_event_type, event_type_b@) == Some(zones_b@),
              sorted_by_time(*self, zones_a@, a_indices@), sorted_by_time(*self, zones_b@, b_indices@),
-             a_ptr <= a_indices@.len(), b_ptr <= b_indices@.len(), results@.len() <= a_ptr,
+             a_ptr <= a_indices@.len(), b_ptr <= b_indices@.len(),
+             results@.len() <= a_ptr, // OBL:C15.matcher.followed_by.at_most_one_pair_per_a
              comparisons <= a_ptr + b_ptr, timestamp_passed <= a_ptr, where_passed <= a_ptr, where_failed <= a_ptr,
-             forall|i: int, j: int| a_ptr <= i < a_indices@.len() && 0 <= j < b_ptr ==> ts_of(*self, zones_b@, #[trigger] b_indices@[j]) < ts_of(*self, zones_a@, #[trigger] a_indices@[i]),
-             forall|n: int| 0 <= n < results@.len() ==> fb_sound(*self, *group, *zones_by_event_type, event_type_a@, event_type_b@, #[trigger] results@[n]),
-             forall|i: int, j: int| i < a_ptr && fb_partner(*self, *group, *zones_by_event_type, event_type_a@, event_type_b@, i, j) ==> exists|n: int| 0 <= n < results@.len() && is_pair(#[trigger] results@[n], *group, event_type_a@, event_type_b@, i, j, true),
+             forall|i: int, j: int| a_ptr <= i < a_indices@.len() && 0 <= j < b_ptr ==> ts_of(*self, zones_b@, #[trigger] b_indices@[j]) < ts_of(*self, zones_a@, #[trigger] a_indices@[i]), // OBL:C15.matcher.followed_by.every_a_with_a_qualifying_nearest_b_is_matched
+             forall|n: int| 0 <= n < results@.len() ==> fb_sound(*self, *group, *zones_by_event_type, event_type_a@, event_type_b@, #[trigger] results@[n]), // OBL:C15.matcher.followed_by.every_pair_is_linked_ordered_and_passes_where
+             forall|i: int, j: int| i < a_ptr && fb_partner(*self, *group, *zones_by_event_type, event_type_a@, event_type_b@, i, j) ==> exists|n: int| 0 <= n < results@.len() && is_pair(#[trigger] results@[n], *group, event_type_a@, event_type_b@, i, j, true), // OBL:C15.matcher.followed_by.every_a_with_a_qualifying_nearest_b_is_matched
          decreases (a_indices@.len() - a_ptr) + (b_indices@.len() - b_ptr),
 {
              let ghost res0 = results@;
@@ -254,10 +255,11 @@ impl SequenceMatcher {
              a_indices@ == rows(*group, event_type_a@), b_indices@ == rows(*group, event_type_b@), a_indices@.len() + b_indices@.len() < usize::MAX,
              zones_of(*zones_by_event_type, event_type_a@) == Some(zones_a@), zones_of(*zones_by_event_type, event_type_b@) == Some(zones_b@),
              sorted_by_time(*self, zones_a@, a_indices@), sorted_by_time(*self, zones_b@, b_indices@),
-             a_ptr <= a_indices@.len(), b_ptr <= b_indices@.len(), results@.len() <= a_ptr, comparisons <= a_ptr + b_ptr,
-             b_ptr == 0 || (b_ptr < b_indices@.len() && forall|i: int| a_ptr <= i < a_indices@.len() ==> ts_of(*self, zones_b@, b_indices@[b_ptr as int]) < ts_of(*self, zones_a@, #[trigger] a_indices@[i])),
-             forall|n: int| 0 <= n < results@.len() ==> pb_sound(*self, *group, *zones_by_event_type, event_type_a@, event_type_b@, #[trigger] results@[n]),
-             forall|i: int, j: int| i < a_ptr && pb_partner(*self, *group, *zones_by_event_type, event_type_a@, event_type_b@, i, j) ==> exists|n: int| 0 <= n < results@.len() && is_pair(#[trigger] results@[n], *group, event_type_a@, event_type_b@, i, j, false),
+             a_ptr <= a_indices@.len(), b_ptr <= b_indices@.len(), comparisons <= a_ptr + b_ptr,
+             results@.len() <= a_ptr, // OBL:C15.matcher.preceded_by.at_most_one_pair_per_a
+             b_ptr == 0 || (b_ptr < b_indices@.len() && forall|i: int| a_ptr <= i < a_indices@.len() ==> ts_of(*self, zones_b@, b_indices@[b_ptr as int]) < ts_of(*self, zones_a@, #[trigger] a_indices@[i])), // OBL:C15.matcher.preceded_by.every_a_with_a_qualifying_latest_earlier_b_is_matched
+             forall|n: int| 0 <= n < results@.len() ==> pb_sound(*self, *group, *zones_by_event_type, event_type_a@, event_type_b@, #[trigger] results@[n]), // OBL:C15.matcher.preceded_by.every_pair_is_linked_strictly_ordered_and_passes_where
+             forall|i: int, j: int| i < a_ptr && pb_partner(*self, *group, *zones_by_event_type, event_type_a@, event_type_b@, i, j) ==> exists|n: int| 0 <= n < results@.len() && is_pair(#[trigger] results@[n], *group, event_type_a@, event_type_b@, i, j, false), // OBL:C15.matcher.preceded_by.every_a_with_a_qualifying_latest_earlier_b_is_matched
          decreases (a_indices@.len() - a_ptr),
 {
              let ghost res0 = results@;
